@@ -11,6 +11,8 @@ pub struct GenCfg {
     /// probability of injecting a fault at a node
     pub fault: f64,
     pub max_depth: usize,
+    /// from this depth on containers hold at most one element (deep but thin payloads for recursive types)
+    pub thin_from: usize,
     pub dup_keys: bool,
     pub nonfinite: bool,
     /// keys and strings restricted to [A-Za-z0-9_] (C14: unambiguous rendered paths)
@@ -28,6 +30,7 @@ impl Default for GenCfg {
         GenCfg {
             fault: 0.1,
             max_depth: 6,
+            thin_from: usize::MAX,
             dup_keys: false,
             nonfinite: false,
             plain_text: false,
@@ -42,6 +45,7 @@ pub struct Gen<'a, R: Rng = TestRng> {
     pub rng: &'a mut R,
     pub cfg: GenCfg,
     pub faults: usize,
+    cur_depth: usize,
 }
 
 pub const INT_POOL: &[i128] = &[
@@ -119,7 +123,7 @@ pub fn dict() -> &'static Dict {
 
 impl<'a, R: Rng> Gen<'a, R> {
     pub fn new(rng: &'a mut R, cfg: GenCfg) -> Self {
-        Gen { rng, cfg, faults: 0 }
+        Gen { rng, cfg, faults: 0, cur_depth: 0 }
     }
 
     pub fn chance(&mut self, p: f64) -> bool {
@@ -400,6 +404,9 @@ impl<'a, R: Rng> Gen<'a, R> {
     }
 
     pub fn len(&mut self) -> usize {
+        if self.cur_depth >= self.cfg.thin_from {
+            return if self.below(8) == 0 { 0 } else { 1 };
+        }
         // now and then a long container: anything that depends on a size threshold (inline buffers,
         // fast paths, unstable sorts) needs more than a handful of elements
         if self.below(40) == 0 {
@@ -433,6 +440,7 @@ impl<'a, R: Rng> Gen<'a, R> {
         if depth > self.cfg.max_depth + 4 {
             return PV::Null;
         }
+        self.cur_depth = depth;
         match ty {
             Ty::Lazy(f) => {
                 if depth > self.cfg.max_depth {
